@@ -268,6 +268,23 @@ def m_request_stale_entry(f, case, viol):
     return bool(paths) and all(p in cand and p in req for p in paths)
 
 
+def m_mock_path_ci(f, case, viol):
+    """mechanism (C16): MockProvider with path ids AND case-insensitive names (a combination the repo's own tests never use; the
+    mock says 'TODO: support case insensitive storage'): MockFS keys an object both by its id - the path as first spelled - and by
+    its normalized path, so as soon as one object is addressed under two spellings the two keys drift apart (child listed twice,
+    stale id after delete + re-create, missing event).  Needs the provider to be mock_path_ci and the history to contain a path
+    component with an upper-case letter."""
+    if case.get("provider") != "mock_path_ci":
+        return False
+    comps = set()
+    for op in case.get("plan", []):
+        for x in op[1:]:
+            if isinstance(x, str) and x.startswith("/"):
+                comps.update(c for c in x.split("/") if c)
+    # (the id keeps the spelling, the normalized key is lower-case: they differ as soon as a component has an upper-case letter)
+    return any(c != c.lower() for c in comps)
+
+
 def _abs_moves(case, kinds):
     """user moves addressed by account paths that cross a sync-root boundary: [(plan index, side, op, inside rel path, outside path, direction)]"""
     roots = tuple(case.get("cfg", {}).get("roots", ("/local", "/remote")))
@@ -332,7 +349,7 @@ def m_moved_out_race(f, case, viol):
     return _paths_related_to_moves(viol, ok)
 
 
-MATCHERS = {"request_stale_entry": m_request_stale_entry, "late_parent_event": m_late_parent_event, "crash_dup_entry": m_crash_dup_entry, "boundary_folder_move": m_boundary_folder_move, "moved_out_race": m_moved_out_race, "crash_rename_over": m_crash_rename_over, "event_exc": m_event_exc, "half_transfer": m_half_transfer, "history": m_history, "rename_race": m_rename_race, "dirdelete_race": m_dirdelete_race}
+MATCHERS = {"mock_path_ci": m_mock_path_ci, "request_stale_entry": m_request_stale_entry, "late_parent_event": m_late_parent_event, "crash_dup_entry": m_crash_dup_entry, "boundary_folder_move": m_boundary_folder_move, "moved_out_race": m_moved_out_race, "crash_rename_over": m_crash_rename_over, "event_exc": m_event_exc, "half_transfer": m_half_transfer, "history": m_history, "rename_race": m_rename_race, "dirdelete_race": m_dirdelete_race}
 
 
 def match_one(f, case, viol):
